@@ -336,6 +336,57 @@ impl Prop for C14Agent {
     }
 }
 
+/// the damaged get-config reply of a case, and whether it targets the candidate reader
+pub fn render_garbage(case: &GarbageCase) -> (Vec<u8>, bool) {
+    let wrap = |cfg: X| {
+        X::container(Ns::Base, "rpc-reply")
+            .attr("message-id", "2")
+            .kid(X::container(Ns::Base, "data").kid(cfg))
+    };
+    let (mut bytes, candidates) = match &case.tree {
+        ConfigTree::Candidates(stmts) => (
+            render_message(&wrap(running_x(stmts)), &case.style).into_bytes(),
+            true,
+        ),
+        ConfigTree::Installed(spec) => (
+            render_message(&wrap(spec.to_config().render()), &case.style).into_bytes(),
+            false,
+        ),
+    };
+    for m in &case.mutations {
+        bytes = apply(bytes, m);
+    }
+    (bytes, candidates)
+}
+
+/// Entry function shared with the fuzz target: serve `bytes` as the reply to the agent's
+/// get-config for the running (candidates) or the ephemeral (installed) configuration.
+pub fn feed_agent_reader_raw(candidates: bool, bytes: &[u8]) -> Result<(), String> {
+    let fake = Arc::new(Mutex::new(FakeJunos::new("bgpfu")));
+    {
+        let mut f = fake.lock().unwrap();
+        if candidates {
+            f.running_override = Some(bytes.to_vec());
+        } else {
+            f.ephemeral_override = Some(bytes.to_vec());
+        }
+    }
+    let done = if candidates {
+        drive(bgpfu_junos_agent::verif::fetch_candidates(
+            fake_junos::factory(&fake),
+            "bgpfu",
+        ))
+        .map(|_| ())
+    } else {
+        drive(bgpfu_junos_agent::verif::fetch_installed(
+            fake_junos::factory(&fake),
+            "bgpfu",
+        ))
+        .map(|_| ())
+    };
+    done.ok_or_else(|| "the reader never returns".to_string())
+}
+
 // ------------------------------------------------------------------ C10: agent payloads
 
 pub struct C10Agent;
